@@ -142,6 +142,65 @@ def lean_audit(prop, module_files):
     return len(names), discharged, details, problems
 
 
+
+def transitive_modules(lean_files):
+    """RosuModel.* modules reachable through `import` from the given project files."""
+    seen, todo = [], [f[:-5].replace("/", ".") for f in lean_files]
+    while todo:
+        m = todo.pop()
+        if m in seen:
+            continue
+        path = os.path.join(LEAN, m.replace(".", "/") + ".lean")
+        if not os.path.exists(path):
+            continue
+        seen.append(m)
+        for line in open(path):
+            mm = re.match(r"\s*import\s+(RosuModel\.\S+)", line)
+            if mm:
+                todo.append(mm.group(1))
+    return sorted(seen)
+
+
+def leanchecker(lean_files):
+    """Independent re-check (Lean's `leanchecker`) of the compiled .olean files of the property's
+    modules and of every project module they import. Returns (info, problem)."""
+    mods = transitive_modules(lean_files)
+    t0 = time.time()
+    with Lock("lake"):
+        try:
+            rc, out, err = sh(["lake", "env", "leanchecker"] + mods, cwd=LEAN, timeout=2400)
+        except Exception as e:
+            rc, out, err = 124, "", str(e)
+    info = {"modules": len(mods), "exit": rc, "wall_s": round(time.time() - t0, 1)}
+    if rc != 0:
+        return info, "leanchecker rejected the compiled modules: " + (out + err)[-400:]
+    return info, None
+
+
+
+def failing_declarations(lake_log):
+    """Maps `error: <file>:<line>:<col>` entries of a lake log to the enclosing declaration
+    (last `theorem|lemma|def|example|instance` at or before that line)."""
+    out = []
+    for m in re.finditer(r"error: (?:\./)?(\S+?\.lean):(\d+):(\d+)", lake_log):
+        f, line = m.group(1), int(m.group(2))
+        path = f if os.path.isabs(f) else os.path.join(LEAN, f)
+        name = "?"
+        try:
+            src = open(path).read().splitlines()
+            for i in range(min(line, len(src)) - 1, -1, -1):
+                mm = re.match(r"\s*(?:private\s+|protected\s+|@\[[^\]]*\]\s*)*(theorem|lemma|def|example|instance|abbrev)\s+([^\s:({\[]+)?", src[i])
+                if mm:
+                    name = f"{mm.group(1)} {mm.group(2) or ''}".strip()
+                    break
+        except OSError:
+            pass
+        entry = f"{os.path.relpath(path, LEAN)}:{line} ({name})"
+        if entry not in out:
+            out.append(entry)
+    return out
+
+
 def forbidden_scan():
     """Scan every Lean source of the project (outside comments)."""
     hits = []
